@@ -5,6 +5,9 @@ package vsched
 // Plain builds: channel hand-off.
 type gate chan struct{}
 
+//go:norace
 func newGate() gate   { return make(chan struct{}, 1) }
+//go:norace
 func (g gate) open()  { g <- struct{}{} }
+//go:norace
 func (g gate) wait()  { <-g }
